@@ -114,6 +114,10 @@ func decode(buf []byte, depth int) (v Value, n int, st Status) {
 		if ln == -1 {
 			return Value{Kind: NilBulk}, 1 + c, OK
 		}
+		if ln > int64(len(buf)) {
+			// cannot be complete yet (also guards the arithmetic below)
+			return v, 0, Incomplete
+		}
 		need := 1 + c + int(ln) + 2
 		if len(buf) < need {
 			return v, 0, Incomplete
@@ -135,6 +139,9 @@ func decode(buf []byte, depth int) (v Value, n int, st Status) {
 			return Value{Kind: NilArray}, 1 + c, OK
 		}
 		pos := 1 + c
+		if cnt > int64(len(buf)) {
+			return v, 0, Incomplete
+		}
 		arr := make([]Value, 0, cnt)
 		for i := int64(0); i < cnt; i++ {
 			e, en, es := decode(buf[pos:], depth+1)
